@@ -29,6 +29,8 @@ T2(a, b) == <<BehOps(a), BehOps(b)>>
 T3(a, b, c) == <<BehOps(a), BehOps(b), BehOps(c)>>
 GenAll == [Procs -> {BehOps(b) : b \in AllBehNames}]
 GenSome == [Procs -> {BehOps(b) : b \in {"none", "wh404", "twice", "afterw"}}]
+GenClasses == [Procs -> {BehOps(b) : b \in ClassBehNames \cup {"none"}}]
+GenEvery == [Procs -> {BehOps(b) : b \in AllBehNames \cup ClassBehNames}]
 GenThree == [Procs -> {BehOps(b) : b \in {"none", "wh404", "twice"}}]
 
 GInit == Init /\ running = 0 /\ hist = <<>>
